@@ -1,0 +1,45 @@
+//! Read-only introspection hooks for external verification harnesses.
+//!
+//! Only compiled with `--cfg gc_arena_verif`. Nothing in here changes collector state; the
+//! snapshot is plain data describing the collector at the moment of the call.
+
+use alloc::vec::Vec;
+
+/// State of one allocation in the arena's object list.
+#[derive(Debug, Clone, Copy, PartialEq, Eq)]
+pub struct ObjInfo {
+    /// Address of the value (what `Gc::as_ptr` returns, erased).
+    pub addr: usize,
+    /// 0 = white, 1 = white-weak, 2 = gray, 3 = black.
+    pub color: u8,
+    pub live: bool,
+    pub needs_trace: bool,
+}
+
+/// Read-only snapshot of the collector.
+#[derive(Debug, Clone, PartialEq, Eq)]
+pub struct Snapshot {
+    /// 0 = mark, 1 = sweep, 2 = sleep, 3 = drop.
+    pub phase: u8,
+    pub root_needs_trace: bool,
+    pub gray_len: usize,
+    pub gray_again_len: usize,
+    /// The `all` list, head first.
+    pub all: Vec<ObjInfo>,
+    /// Address of the next object the sweep will visit.
+    pub sweep: Option<usize>,
+    /// Address of the last object the sweep kept.
+    pub sweep_prev: Option<usize>,
+}
+
+impl Snapshot {
+    /// Color of the object at `addr`, if it is in the object list.
+    pub fn color_of(&self, addr: usize) -> Option<u8> {
+        self.all.iter().find(|o| o.addr == addr).map(|o| o.color)
+    }
+
+    /// Index of `addr` in the object list, head first.
+    pub fn position_of(&self, addr: usize) -> Option<usize> {
+        self.all.iter().position(|o| o.addr == addr)
+    }
+}
